@@ -80,6 +80,43 @@ example :
     st.reports.map (fun r => (r.id, r.pos, r.snap.map fun x => (x.split, x.cur))) =
       [(1, 3, [(0, 2), (1, 6)]), (2, 6, [(0, 2), (1, 8)])] := by decide
 
+/-- **The cut with the Kinesis reader, also across failed reads.** For every history of records arriving in the
+shards, shard assignments, `ReadEvents` calls of the round-robin Kinesis reader under `ReadSourceChannel` and the
+runner loop — any of which may fail with a retryable `GetRecords` error — and checkpoint barriers: the positions
+reported at a barrier cover exactly the records emitted before it. -/
+theorem cursor_matches_cut_kinesis (as : List KAct) :
+    let st := (krun {} as).r
+    ∀ rep ∈ st.reports,
+      st.out[rep.pos]? = some (Ev.barrier rep.id) ∧
+      ∀ r ∈ rep.snap,
+        r.init + (recIdx r.split (st.out.take rep.pos)).length = r.cur ∧
+        (∀ i ∈ recIdx r.split (st.out.take rep.pos), i < r.cur) ∧
+        (∀ i ∈ recIdx r.split (st.out.drop rep.pos), r.cur ≤ i) := by
+  intro st rep hrep
+  obtain ⟨ras, h⟩ := krun_is_rrun as {}
+  have := cursor_matches_cut ras
+  simp only at this
+  have hst : st = rrun {} ras := h
+  rw [hst] at hrep ⊢
+  exact this rep hrep
+
+/-- a read whose `GetRecords` fails moves no position and emits nothing (what the cut relies on) -/
+theorem failed_read_moves_nothing (k : KRd) (sp : RSplit) (hs : k.r.splits[k.idx]? = some sp) (hf : k.failIn = 1) :
+    (kstep k .read).1.r = k.r ∧ (kstep k .read).1.idx = k.idx ∧ (kstep k .read).2 = some none := by
+  simp [kstep, hs, hf]
+
+example :
+    let k := krun { limit := 2 } [.put 0 5, .put 1 3, .assign [(0, 0), (1, 0)], .read, .fail 1, .read, .read, .barrier 1, .read]
+    k.r.out = [.record 0 0, .record 0 1, .record 1 0, .record 1 1, .barrier 1, .record 0 2, .record 0 3] ∧
+    k.r.reports.map (fun r => r.snap.map fun x => (x.split, x.cur)) = [[(0, 2), (1, 2)]] := by decide
+
+/-- the reader contract is necessary: a read that moves positions and whose records are then dropped (a failing read
+that had already polled other shards, its events discarded by the channel) breaks the cut -/
+theorem dropped_read_breaks_cut :
+    let st := rstep (readDrop (rstep {} (.assign [(0, 0)])) [0, 0]) (.barrier 1)
+    st.reports.map (fun r => r.snap.map fun x => (x.split, x.init, x.cur)) = [[(0, 0, 2)]] ∧
+    recIdx 0 (st.out.take 0) = [] := by decide
+
 /-- **A read is emitted atomically.** One `ReadEvents` of the loop — however many records it returns — appends exactly
 its records to the output stream and takes no checkpoint report: no barrier can fall between the first and the last
 record of a read, whose positions the reader has already passed (so a checkpoint requested while a read is being
